@@ -228,6 +228,9 @@ func TestVerif_C02(t *testing.T) {
 						alphabet = append(alphabet, vfOp{Op: "delattr", Path: tg.path, Name: n})
 					}
 					alphabet = append(alphabet, vfOp{Op: "delattr", Path: tg.path, Name: "fill00"})
+					// the session may end and a new one begin at any point (Close, OpenForWrite,
+					// the handle re-acquired with OpenDataset: it then works on a cached header)
+					alphabet = append(alphabet, vfOp{Op: "reopen"})
 				}
 				if r.Thorough() {
 					alphabet = append(alphabet, vfOp{Op: "attr", Path: tg.path, Name: long, Value: "i32a"}, vfOp{Op: "attr", Path: tg.path, Name: "big", Value: "s120"})
